@@ -147,4 +147,16 @@ pub fn run(r: &mut Runner) {
             }
         }
     });
+    {
+        let org = crate::organic::states(if quick { 1 } else { 2 });
+        let no = org.len();
+        r.notes.push(format!("organic operands: {} chain states (depth {} from the C01 seeds)", no, if quick { 1 } else { 2 }));
+        r.par("organic operands (chain results)", no.div_ceil(512), no as u64, |c, l| {
+            for i in (c * 512)..((c + 1) * 512).min(no) {
+                for call in 0..5 {
+                    rec.record(l, (1u64 << 60) + (i * 5 + call) as u64, judge(call, org[i]));
+                }
+            }
+        });
+    }
 }
